@@ -98,7 +98,7 @@ def run(tier, seed):
     c.validate("db", "DbDigestTrace", "DbDigestTrace.cfg", t1, name="cases")
     # impl -> spec: seeded random nodes
     t2 = os.path.join(c.work, "random.trace.ndjson")
-    s2 = c.run_harness("c12_digest", ["--mode", "random", "--runs", 60 if q else 600, "--out", t2, "--seed", seed,
+    s2 = c.run_harness("c12_digest", ["--mode", "random", "--runs", 60 if q else 300, "--out", t2, "--seed", seed,
                                       "--work", fs], timeout=3000)
     c.cov["stages"]["RUN:random"] = c.cov["stages"].pop("RUN:c12_digest")
     recs2 = vlib.read_ndjson(t2)
